@@ -4,6 +4,7 @@ CONSTANTS
   TokLen <- TokLenC
   ParseOK <- ParseOKC
   CopyOnReturn = TRUE
+  CopyTokens = TRUE
   ResetCursor = TRUE
   MaxLists = 9
   Modes <- ModesC
